@@ -86,6 +86,7 @@ type Contract struct {
 	OnlyCallers  []NoReads
 	NoMethods    []NoReads
 	StringsExact bool // model the contents of concatenated strings (quantified axioms)
+	IntRange     bool // `intrange`: int / int64 values read from memory, parameters and results lie in the 64-bit range (they do); arithmetic stays mathematical
 	Handler  bool // deferred recover handler: recover() yields an arbitrary value
 	RecoverBy string // callee key of the deferred recover handler: runtime panics after its Defer are converted to errors
 	FieldsOf []Clause // under modifies *: struct fields may change only at these objects (other objects of the type are preserved)
@@ -519,6 +520,8 @@ func (sp *Specs) loadSpecFile(path, pkgPath string) error {
 			cur.NoConvContents = true
 		case "stringsexact":
 			cur.StringsExact = true
+		case "intrange":
+			cur.IntRange = true
 		case "handler":
 			cur.Handler = true
 		case "recoverby":
